@@ -11,8 +11,8 @@ written to $C17_FUZZ_OUT/viol-<sig>.json and $C17_FUZZ_OUT/stats.json is rewritt
 leaves through exit(), Python atexit handlers do not run).  The parent re-judges every collected case with check_case.
 
 Input layout: byte 0 bit0 = mode (0: one string, lines by str.splitlines; 1: explicit lines, split on '\n' only, so
-'\r', '\x0b', U+2028 ... stay inside a line), bit1 = uod command names present; rest = UTF-8 (invalid sequences replaced,
-so no lone surrogates).
+'\r', '\x0b', U+2028 ... stay inside a line), bit1 = uod command names present, bit2 = fold everything outside printable ASCII / newline to a
+space; rest = UTF-8 (invalid sequences replaced, so no lone surrogates).
 """
 from __future__ import annotations
 
@@ -26,6 +26,8 @@ import sys
 def bytes_to_case(data: bytes):
     flags = data[0] if data else 0
     text = data[1:].decode("utf-8", "replace")
+    if flags & 4:   # "structured" view: everything outside printable ASCII / newline becomes a space (more indentation, more judged cases)
+        text = "".join(ch if (" " <= ch <= "~" or ch == "\n") else " " for ch in text)
     uod = ["Foo", "Bar baz", "Reset"] if flags & 2 else []
     if flags & 1:
         lines = text.split("\n")
